@@ -284,13 +284,14 @@ impl<'a> Visit<'a> for NonPredicateParamIndexer<'a> {
         match node {
             syn::Type::Path(ty) => {
                 if let Some(qself) = &ty.qself {
+                    // NOTE: After a qualified self the path names a trait or an associated item
                     self.visit_qself(qself);
-                }
-
-                let first_seg = ty.path.segments.first().unwrap();
-                if !self.visit_type_param_ident(&first_seg.ident) && ty.path.get_ident().is_some() {
-                    // NOTE: Const param given as a generic argument (`Wrapper<T, N>`) is parsed as a type
-                    self.visit_const_param_ident(&first_seg.ident);
+                } else {
+                    let first_seg = ty.path.segments.first().unwrap();
+                    if !self.visit_type_param_ident(&first_seg.ident) && ty.path.get_ident().is_some() {
+                        // NOTE: Const param given as a generic argument (`Wrapper<T, N>`) is parsed as a type
+                        self.visit_const_param_ident(&first_seg.ident);
+                    }
                 }
                 syn::visit::visit_path(self, &ty.path);
             }
@@ -302,12 +303,14 @@ impl<'a> Visit<'a> for NonPredicateParamIndexer<'a> {
         match node {
             syn::Expr::Path(ty) => {
                 if let Some(qself) = &ty.qself {
+                    // NOTE: After a qualified self the path names a trait or an associated item
                     self.visit_qself(qself);
-                }
-
-                let first_seg = ty.path.segments.first().unwrap();
-                if !self.visit_type_param_ident(&first_seg.ident) {
-                    self.visit_const_param_ident(&first_seg.ident);
+                } else {
+                    let first_seg = ty.path.segments.first().unwrap();
+                    // NOTE: A const param is a value, only a bare name can refer to it (`N::A` is a type's item)
+                    if !self.visit_type_param_ident(&first_seg.ident) && ty.path.get_ident().is_some() {
+                        self.visit_const_param_ident(&first_seg.ident);
+                    }
                 }
 
                 syn::visit::visit_path(self, &ty.path);
@@ -398,7 +401,9 @@ impl VisitMut for NonPredicateParamResolver<'_> {
             syn::Type::Path(ty) => {
                 syn::visit_mut::visit_type_path_mut(self, ty);
 
-                if let Some(new_ty) = self.try_replace_type_path_with_type(&ty.path) {
+                if ty.qself.is_some() {
+                    // NOTE: After a qualified self the path names a trait or an associated item
+                } else if let Some(new_ty) = self.try_replace_type_path_with_type(&ty.path) {
                     *node = new_ty;
                 } else if ty.path.get_ident().is_some() {
                     // NOTE: Const param given as a generic argument (`Wrapper<T, N>`) is parsed as a type
@@ -426,9 +431,12 @@ impl VisitMut for NonPredicateParamResolver<'_> {
                 syn::visit_mut::visit_expr_path_mut(self, ty);
 
                 // TODO: struct name can clash with type/const param name
-                if let Some(new_ty) = self.try_replace_type_path_with_type(&ty.path) {
+                if ty.qself.is_some() {
+                    // NOTE: After a qualified self the path names a trait or an associated item
+                } else if let Some(new_ty) = self.try_replace_type_path_with_type(&ty.path) {
                     *ty = syn::parse_quote!(#new_ty);
-                } else {
+                } else if ty.path.get_ident().is_some() {
+                    // NOTE: A const param is a value, only a bare name can refer to it (`N::A` is a type's item)
                     self.try_replace_expr_path_with_type(&mut ty.path);
                 }
             }
